@@ -1,4 +1,4 @@
-use std::fmt;
+use std::{fmt, rc::Rc};
 
 use crate::{
     ink_list::InkList,
@@ -187,13 +187,23 @@ impl Value {
         }
     }
 
-    pub fn retain_list_origins_for_assignment(old_value: &dyn RTObject, new_value: &dyn RTObject) {
+    /// An empty list assigned over a list remembers that list's origins.  The assigned value may be
+    /// shared (a literal of the program, the value of another variable, a default value), so the
+    /// origins are remembered on a copy of it, never written into the shared object.
+    pub fn retain_list_origins_for_assignment(
+        old_value: &dyn RTObject,
+        new_value: Rc<Value>,
+    ) -> Rc<Value> {
         if let Some(old_list) = Self::get_value::<&InkList>(old_value)
-            && let Some(new_list) = Self::get_value::<&InkList>(new_value)
+            && let Some(new_list) = Self::get_value::<&InkList>(new_value.as_ref())
             && new_list.items.is_empty()
         {
-            new_list.set_initial_origin_names(old_list.get_origin_names());
+            let copy = new_list.clone();
+            copy.set_initial_origin_names(old_list.get_origin_names());
+            return Rc::new(Self::new::<InkList>(copy));
         }
+
+        new_value
     }
 
     pub fn get_cast_ordinal(&self) -> u8 {
